@@ -465,6 +465,151 @@ theorem check_capacity (l : Limiter) (ip : Nat) (now : Rat)
         rw [erase_of_not_mem bs ip hin]; exact hl
   · simp only [he, Bool.not_false, if_true]
     exact ⟨hn, hlen⟩
+/-! ### the bound under rounding -/
+
+theorem requestsIn_cons (p : Rat × Bool) (tr : List (Rat × Bool)) (lo hi : Rat) :
+    requestsIn (p :: tr) lo hi = (if decide (lo ≤ p.1) && decide (p.1 ≤ hi) then 1 else 0) + requestsIn tr lo hi := by
+  unfold requestsIn
+  by_cases h : (decide (lo ≤ p.1) && decide (p.1 ≤ hi)) = true <;> simp [h] <;> omega
+
+theorem admittedIn_zero_of_after (tr : List (Rat × Bool)) (lo hi : Rat) (h : ∀ p ∈ tr, hi < p.1) :
+    admittedIn tr lo hi = 0 := by
+  induction tr with
+  | nil => rfl
+  | cons p tr ih =>
+    obtain ⟨t, a⟩ := p
+    rw [admittedIn_cons, ih (fun q hq => h q (List.mem_cons_of_mem _ hq))]
+    have : ¬ t ≤ hi := not_le.mpr (h (t, a) List.mem_cons_self)
+    simp [this]
+
+theorem approxStep_good (ε : Rat) (b b' : Bucket) (t : Rat) (a : Bool) (hg : b.Good) (hs : ApproxStep ε b t b' a) :
+    b'.Good := by
+  obtain ⟨_, hm, hr, w, hw0, hwm, _, _, ha1, ha0, htok⟩ := hs
+  cases a with
+  | true =>
+    have := ha1 rfl
+    simp only [if_true] at htok
+    exact ⟨by rw [htok]; linarith, by rw [htok, hm]; linarith, by rw [hr]; exact hg.rate_nonneg⟩
+  | false =>
+    simp only [Bool.false_eq_true, if_false, sub_zero] at htok
+    exact ⟨by rw [htok]; exact hw0, by rw [htok, hm]; exact hwm, by rw [hr]; exact hg.rate_nonneg⟩
+
+theorem approx_potential (ε : Rat) (hε : 0 ≤ ε) (tr : List (Rat × Bool)) (b : Bucket) (lo hi : Rat)
+    (hg : b.Good) (hrun : ApproxRun ε b tr) (hs : (tr.map (·.1)).Pairwise (· ≤ ·)) (hl : ∀ p ∈ tr, b.last ≤ p.1)
+    (hlh : lo ≤ hi) (hb : b.last ≤ hi) :
+    (admittedIn tr lo hi : Rat) ≤
+      (if lo ≤ b.last then b.tokens + b.rate * (hi - b.last) else b.maxTokens + b.rate * (hi - lo))
+        + ε * (requestsIn tr lo hi : Rat) := by
+  induction tr generalizing b with
+  | nil =>
+    have h0 := hg.tok_nonneg; have h1 := hg.tok_le; have h2 := hg.rate_nonneg
+    have e : admittedIn ([] : List (Rat × Bool)) lo hi = 0 := rfl
+    have e2 : requestsIn ([] : List (Rat × Bool)) lo hi = 0 := rfl
+    rw [e, e2]
+    split
+    · have := mul_nonneg h2 (sub_nonneg.mpr hb); push_cast; linarith
+    · have := mul_nonneg h2 (sub_nonneg.mpr hlh); push_cast; linarith
+  | cons p tr ih =>
+    obtain ⟨t, a⟩ := p
+    obtain ⟨b', hstep, hrun'⟩ := hrun
+    have hg' := approxStep_good ε b b' t a hg hstep
+    obtain ⟨hlast', hmax', hrate', w, hw0, hwm, hwup, _, ha1, ha0, htok⟩ := hstep
+    simp only at hlast' htok ha1 ha0 hwup
+    have hbt : b.last ≤ t := hl (t, a) List.mem_cons_self
+    have h0 := hg.tok_nonneg; have h1 := hg.tok_le; have h2 := hg.rate_nonneg
+    have hs' : (tr.map (·.1)).Pairwise (· ≤ ·) := (List.pairwise_cons.mp hs).2
+    have htl : ∀ q ∈ tr, t ≤ q.1 := by
+      intro q hq
+      exact (List.pairwise_cons.mp hs).1 q.1 (List.mem_map.mpr ⟨q, hq, rfl⟩)
+    rw [admittedIn_cons, requestsIn_cons]
+    push_cast
+    have hmin1 : min (b.tokens + (t - b.last) * b.rate) b.maxTokens ≤ b.tokens + (t - b.last) * b.rate := min_le_left _ _
+    have hmin2 : min (b.tokens + (t - b.last) * b.rate) b.maxTokens ≤ b.maxTokens := min_le_right _ _
+    have hcnt0 : (0 : Rat) ≤ (requestsIn tr lo hi : Rat) := by exact_mod_cast Nat.zero_le _
+    have hεc : 0 ≤ ε * (requestsIn tr lo hi : Rat) := mul_nonneg hε hcnt0
+    by_cases hthi : t ≤ hi
+    · have ih' := ih b' hg' hrun' hs' (by intro q hq; rw [hlast']; exact htl q hq) (by rw [hlast']; exact hthi)
+      rw [hlast', hrate', hmax'] at ih'
+      by_cases hlot : lo ≤ t
+      · simp only [hlot, if_true] at ih'
+        have hflag : (if (a && decide (lo ≤ t) && decide (t ≤ hi)) = true then (1 : Rat) else 0)
+            = (if a = true then 1 else 0) := by simp [hlot, hthi]
+        have hreq : (if (decide (lo ≤ t) && decide (t ≤ hi)) = true then (1 : Rat) else 0) = 1 := by simp [hlot, hthi]
+        rw [hflag, hreq]
+        have htok' : b'.tokens + (if a = true then (1 : Rat) else 0) = w := by
+          rw [htok]; cases a <;> simp
+        generalize (if a = true then (1 : Rat) else 0) = f at htok' ⊢
+        split
+        · nlinarith
+        · have : b.rate * (hi - t) ≤ b.rate * (hi - lo) := mul_le_mul_of_nonneg_left (by linarith) h2
+          nlinarith
+      · have hlt : t < lo := not_le.mp hlot
+        simp only [hlot, if_false] at ih'
+        have hbl : ¬ lo ≤ b.last := not_le.mpr (lt_of_le_of_lt hbt hlt)
+        simp only [hbl, if_false]
+        have e1 : (if (a && decide (lo ≤ t) && decide (t ≤ hi)) = true then (1 : Rat) else 0) = 0 := by simp [hlot]
+        have e2 : (if (decide (lo ≤ t) && decide (t ≤ hi)) = true then (1 : Rat) else 0) = 0 := by simp [hlot]
+        rw [e1, e2]; linarith
+    · have hall : ∀ q ∈ tr, hi < q.1 := fun q hq => lt_of_lt_of_le (not_le.mp hthi) (htl q hq)
+      rw [admittedIn_zero_of_after tr lo hi hall]
+      have e1 : (if (a && decide (lo ≤ t) && decide (t ≤ hi)) = true then (1 : Rat) else 0) = 0 := by simp [hthi]
+      have e2 : (if (decide (lo ≤ t) && decide (t ≤ hi)) = true then (1 : Rat) else 0) = 0 := by simp [hthi]
+      rw [e1, e2]
+      split
+      · have := mul_nonneg h2 (sub_nonneg.mpr hb); push_cast; linarith
+      · have := mul_nonneg h2 (sub_nonneg.mpr hlh); push_cast; linarith
+
+/-- the bound with an explicit rounding term: `ε` per request in the window -/
+theorem approx_bucket_bound (ε : Rat) (hε : 0 ≤ ε) (tr : List (Rat × Bool)) (b : Bucket) (lo hi : Rat)
+    (hg : b.Good) (hrun : ApproxRun ε b tr) (hs : (tr.map (·.1)).Pairwise (· ≤ ·)) (hl : ∀ p ∈ tr, b.last ≤ p.1)
+    (hlh : lo ≤ hi) :
+    (admittedIn tr lo hi : Rat) ≤ b.maxTokens + b.rate * (hi - lo) + ε * (requestsIn tr lo hi : Rat) := by
+  have h0 := hg.tok_nonneg; have h1 := hg.tok_le; have h2 := hg.rate_nonneg
+  have hcnt0 : (0 : Rat) ≤ (requestsIn tr lo hi : Rat) := by exact_mod_cast Nat.zero_le _
+  by_cases hb : b.last ≤ hi
+  · have h := approx_potential ε hε tr b lo hi hg hrun hs hl hlh hb
+    split at h
+    · have : b.rate * (hi - b.last) ≤ b.rate * (hi - lo) := mul_le_mul_of_nonneg_left (by linarith) h2
+      linarith
+    · exact h
+  · have hall : ∀ p ∈ tr, hi < p.1 := fun p hp => lt_of_lt_of_le (not_le.mp hb) (hl p hp)
+    rw [admittedIn_zero_of_after tr lo hi hall]
+    have := mul_nonneg h2 (sub_nonneg.mpr hlh)
+    have := mul_nonneg hε hcnt0
+    push_cast; linarith
+/-- corollary: as long as the accumulated rounding stays below one token, at most one extra admission -/
+theorem approx_bucket_bound_slack (ε : Rat) (hε : 0 ≤ ε) (tr : List (Rat × Bool)) (b : Bucket) (lo hi : Rat)
+    (hg : b.Good) (hrun : ApproxRun ε b tr) (hs : (tr.map (·.1)).Pairwise (· ≤ ·)) (hl : ∀ p ∈ tr, b.last ≤ p.1)
+    (hlh : lo ≤ hi) (hsmall : ε * (requestsIn tr lo hi : Rat) ≤ 1) :
+    (admittedIn tr lo hi : Rat) ≤ b.maxTokens + b.rate * (hi - lo) + 1 := by
+  have := approx_bucket_bound ε hε tr b lo hi hg hrun hs hl hlh
+  linarith
+
+/-- the exact model is the special case `ε = 0` -/
+theorem exact_is_approx (b : Bucket) (ts : List Rat) (hg : b.Good) (hs : ts.Pairwise (· ≤ ·))
+    (hl : ∀ t ∈ ts, b.last ≤ t) : ApproxRun 0 b (b.run ts) := by
+  induction ts generalizing b with
+  | nil => trivial
+  | cons t ts ih =>
+    have hbt : b.last ≤ t := hl t List.mem_cons_self
+    obtain ⟨hg', hlast', hmax', hrate', htok'⟩ := Bucket.tryConsume_spec b t hg hbt
+    rw [Bucket.run_cons]
+    refine ⟨(b.tryConsume t).1, ⟨hlast', hmax', hrate', min (b.tokens + (t - b.last) * b.rate) b.maxTokens, ?_, min_le_right _ _, by simp, by simp, ?_, ?_, ?_⟩, ?_⟩
+    · have h0 := hg.tok_nonneg; have h1 := hg.tok_le
+      have := mul_nonneg (sub_nonneg.mpr hbt) hg.rate_nonneg
+      exact le_min (by linarith) (by linarith)
+    · intro ha; simp only at ha; rw [ha] at htok'; simp only [if_true] at htok'
+      have := hg'.tok_nonneg; linarith
+    · intro ha; simp only at ha; rw [ha] at htok'; simp only [Bool.false_eq_true, if_false, add_zero] at htok'
+      rw [← htok']
+      simp only [Bucket.tryConsume, Bucket.refill, hbt, if_true] at ha ⊢
+      split at ha
+      · simp at ha
+      · rename_i hlt; simp only [hlt, if_false]; exact not_le.mp hlt
+    · simp only; linarith
+    · apply ih _ hg' (List.pairwise_cons.mp hs).2
+      intro x hx; rw [hlast']; exact (List.pairwise_cons.mp hs).1 x hx
+
 /-! ### a concrete history (non-vacuity witness of C30): capacity 1, client 1 is evicted by client 2,
 client 2 uses its burst of 2 and is then rejected with retry-after 1/4 s at rate 2 -/
 namespace Witness
